@@ -4,6 +4,7 @@ import CatiiProofs.Append
 import CatiiProofs.Filtered
 import CatiiProofs.Update
 import CatiiProofs.FromArray
+import CatiiProofs.FromArrayWf
 /-!
 # C07 — every operation preserves index well-formedness
 
@@ -14,7 +15,7 @@ version the harness evaluates on every real result; `wf_sound` ties the two.
 
 **Partial**: preservation is proved for `shift_common` (any value, and the library-chosen one),
 `copy`, `append` (any operands with the same higher shape whose rows fit 32 bits), `filtered` (any mask), `update` (any consistent cell assignments) and construction
-from arrays (`CatiiProps/C01`); for the other operations it is checked after every step of every generated history
+from arrays (`from_array_wellformed`); for the other operations it is checked after every step of every generated history
 on the real code (`validate(True)` plus the range / arity / non-emptiness conditions) and on the
 model (`wf`), but is not yet a theorem.
 -/
@@ -28,6 +29,12 @@ theorem decidable_wf_sound (i : IIndex) (h : wf i = true) : WF i := wf_sound i h
 theorem shift_common_preserves_partial (i : IIndex) (h : WF i) (hnd : i.ndim ≤ 2) (v : Option Int)
     (r : IIndex) (hr : shiftCommon i v = .ok r) : WF r :=
   (shiftCommon_refines i h hnd v r hr).1
+
+/-- `from_array(values, counts, common, mapping)` returns a well-formed index on both construction paths -/
+theorem from_array_wellformed (a : Arr) (o : FromOpts) (idx : IIndex) (w : Bool) (harr : ArrOK a)
+    (h : fromArray a o = .ok (idx, w))
+    (hcounts : ∀ c, o.counts = some c → (c.map (·.1)).Nodup ∧ ∀ v ∈ a.data, v ∈ c.map (·.1)) : WF idx :=
+  fromArray_wf a o idx w harr h hcounts
 
 /-- `append(other)` preserves well-formedness, for any two common values and any row counts -/
 theorem append_preserves_partial (i other : IIndex) (ok : AppendOK i other) (hnd : i.ndim ≤ 2)
